@@ -23,6 +23,22 @@ Definition check_qcase (c : qcase) : bool :=
   end.
 Definition q_mismatches := mismatches_with check_qcase.
 
+(* ready-signal cases: push / pop / len / non-blocking receive on ready() on the real queue *)
+Definition sout_eqb (a b : sout N) : bool :=
+  match a, b with
+  | SOut x, SOut y => qout_eqb x y
+  | SPolled x, SPolled y => Bool.eqb x y
+  | _, _ => false
+  end.
+Definition scase := (nat * list (sop N) * list (sout N))%type.
+Definition check_scase (c : scase) : bool :=
+  let '(cap, ops, outs) := c in
+  match new_queue cap with
+  | Ok q0 => list_eqb sout_eqb (s_run true (q0, false) ops) outs
+  | _ => false
+  end.
+Definition s_mismatches := mismatches_with check_scase.
+
 (* ---------------- loop cases ---------------- *)
 From HS Require Export EventLoop.LoopModel.
 
